@@ -277,6 +277,220 @@ static void runInstalled(Toks& t, Out& o, RecAllocator& rec)
     gTemps.clear();
 }
 
+// ---------------------------------------------------------------------------------------------- environment mode
+// ENVIRONMENT mode (first token 3):  3 <rf|~> <ra|~> eop*   (coq/C18_ModelE.v)
+//   eop ::= :mi k | :gi | :ci | :go | :ti | :tr | :a n | :s n | :d k
+//   Five recording allocators with their own books, block ids = ordinals over all of them: D (0) = defaultMallocAllocator(), seen at the
+//   PlatformSpecificMalloc/Free seams while a constructor / destructor runs (operator new/delete are routed to a plain allocator for that
+//   time); M1, M2 (1, 2) = malloc allocators made current by :mi; U (3) = the string allocator the scenario starts with; T (4) = a string
+//   allocator :ti installs on top of what is in force (:tr takes it out if it is still current).  U RE-ENTERS the string allocator: inside
+//   free_memory it builds a SimpleString with an rf-byte buffer, inside alloc_memory one with an ra-byte buffer (not while it is already
+//   doing so), through whatever SimpleString::getStringAllocator() is at that moment, and reports where that buffer lies (:R id off n).
+//   :gi = GlobalSimpleStringCache, :ci = SimpleStringInternalCache + SimpleStringCacheAllocator wired and taken down by hand in the same
+//   order; :go destroys the object; an object alive at the end is destroyed.  No block is ever really freed or poisoned before the end of
+//   the scenario, so a buffer handed out inside memory already given back is observed, not undefined.
+//   Observation item:  :k <nev> (:A who id sz | :F who id sz | :R id off n)* (~ | :r id off) <warn>
+struct EEv { int kind; unsigned long long who, id, sz, off; };      // 0 alloc, 1 free, 2 report string
+static EEv gX[MAXE]; static size_t gNX;
+static int gWho[MAXB];
+static void logX(int kind, unsigned long long who, unsigned long long id, unsigned long long sz, unsigned long long off)
+{
+    if (gNX >= MAXE) { fprintf(stderr, "harness: event log full\n"); exit(3); }
+    gX[gNX].kind = kind; gX[gNX].who = who; gX[gNX].id = id; gX[gNX].sz = sz; gX[gNX].off = off; gNX++;
+}
+static char* envAlloc(int who, size_t sz)
+{
+    if (gNB >= MAXB) { fprintf(stderr, "harness: too many blocks\n"); exit(3); }
+    char* p = (char*)malloc(real(sz));
+    if (!p) { fprintf(stderr, "harness: out of memory\n"); exit(3); }
+    memset(p, 0, real(sz));
+    gB[gNB].p = p; gB[gNB].sz = sz; gB[gNB].freed = false; gWho[gNB] = who;
+    logX(0, (unsigned long long)who, gNB, sz, 0);
+    gNB++;
+    return p;
+}
+static void envFree(int who, char* p, size_t sz)
+{
+    unsigned long long id, off;
+    if (!p) return;
+    if (!findBlock(p, id, off) || off != 0) { logX(1, (unsigned long long)who, NOID, sz, 0); return; }
+    if (sz == NOID) sz = gB[id].sz;                       // the seam does not tell the size
+    logX(1, (unsigned long long)who, id, sz, 0);
+    gB[id].freed = true;                                  // kept as it is: never reused, never poisoned
+}
+class EnvAllocator : public TestMemoryAllocator
+{
+public:
+    int who; bool reenter; bool reporting; bool hasRf, hasRa; size_t rf, ra;
+    EnvAllocator(int w, const char* n) : TestMemoryAllocator(n, "env_alloc", "env_free"), who(w), reenter(false), reporting(false), hasRf(false), hasRa(false), rf(0), ra(0) {}
+    void report(size_t r)
+    {
+        static char txt[1 << 12];
+        reporting = true;
+        if (r == 0 || r > sizeof txt) {                   // no string has an empty buffer: the bare calls
+            TestMemoryAllocator* a = SimpleString::getStringAllocator();
+            char* p = a->alloc_memory(r, __FILE__, __LINE__);
+            unsigned long long id = NOID, off = 0;
+            if (!p || !findBlock(p, id, off)) { id = NOID; off = 0; }
+            logX(2, 0, id, r, off);
+            a->free_memory(p, r, __FILE__, __LINE__);
+        }
+        else {
+            memset(txt, 'r', r - 1); txt[r - 1] = 0;
+            SimpleString line(txt);                        // what a report formatter does: a line of text
+            unsigned long long id = NOID, off = 0;
+            if (!line.buffer_ || !findBlock(line.buffer_, id, off)) { id = NOID; off = 0; }
+            logX(2, 0, id, line.bufferSize_, off);
+        }
+        reporting = false;
+    }
+    char* alloc_memory(size_t size, const char*, size_t) CPPUTEST_OVERRIDE
+    {
+        char* p = envAlloc(who, size);
+        if (reenter && hasRa && !reporting) report(ra);
+        return p;
+    }
+    void free_memory(char* memory, size_t size, const char*, size_t) CPPUTEST_OVERRIDE
+    {
+        envFree(who, memory, size);
+        if (reenter && hasRf && !reporting) report(rf);
+    }
+};
+class PlainNew : public TestMemoryAllocator
+{
+public:
+    PlainNew(const char* n) : TestMemoryAllocator(n, "new", "delete") {}
+    char* alloc_memory(size_t size, const char*, size_t) CPPUTEST_OVERRIDE { return (char*)malloc(real(size)); }
+    void free_memory(char* memory, size_t, const char*, size_t) CPPUTEST_OVERRIDE { free(memory); }
+};
+static void* envHookMalloc(size_t sz) { return envAlloc(0, sz); }
+static void envHookFree(void* p) { envFree(0, (char*)p, NOID); }
+
+static void emitE(Out& o, bool hasRet, const char* ret)
+{
+    o << ":k" << hx(gNX);
+    for (size_t i = 0; i < gNX; i++) {
+        if (gX[i].kind == 2) o << ":R" << hx(gX[i].id) << hx(gX[i].off) << hx(gX[i].sz);
+        else o << (gX[i].kind == 0 ? ":A" : ":F") << hx(gX[i].who) << hx(gX[i].id) << hx(gX[i].sz);
+    }
+    if (hasRet) {
+        unsigned long long id = NOID, off = 0;
+        if (!ret || !findBlock(ret, id, off)) { id = NOID; off = 0; }
+        o << ":r" << hx(id) << hx(off);
+    }
+    else o << "~";
+    o << (gPrinted ? "1" : "0");
+    gNX = 0; gPrinted = false;
+}
+
+static void runEnvironment(Toks& t, Out& o)
+{
+    static EnvAllocator U(3, "base string allocator"), T(4, "string allocator on top"), M1(1, "malloc allocator 1"), M2(2, "malloc allocator 2");
+    static PlainNew plainNew("plain new"), plainNewArray("plain new array");
+    alignas(16) static char objMem[sizeof(GlobalSimpleStringCache)];
+    alignas(16) static char cacheMem2[sizeof(SimpleStringInternalCache)];
+    U.reenter = true; U.reporting = false;
+    if (t.peek() == "~") { t.next(); U.hasRf = false; } else { U.hasRf = true; U.rf = (size_t)t.u(); }
+    if (t.peek() == "~") { t.next(); U.hasRa = false; } else { U.hasRa = true; U.ra = (size_t)t.u(); }
+    TestMemoryAllocator* before = SimpleString::stringAllocator_;
+    TestMemoryAllocator* mallocBefore = getCurrentMallocAllocator();
+    SimpleString::setStringAllocator(&U);
+    gNX = 0; gPrinted = false;
+    int kind = -1;                                         // -1 no object, 0 global, 1 by hand
+    GlobalSimpleStringCache* g = 0; SimpleStringInternalCache* cache = 0; SimpleStringCacheAllocator* adaptor = 0;
+    TestMemoryAllocator* deadAdaptor = 0; TestMemoryAllocator* tSaved = 0;
+    std::vector<Handed> handed;
+    void* (*savedMalloc)(size_t) = PlatformSpecificMalloc;
+    void (*savedFree)(void*) = PlatformSpecificFree;
+    bool ended = false;
+    while (true) {
+        std::string k;
+        if (!t.end()) k = t.sym();
+        else { ended = true; if (kind < 0) break; k = "go"; }
+        if (k == "mi") {
+            int m = t.n();
+            if (m == 0) setCurrentMallocAllocatorToDefault(); else setCurrentMallocAllocator(m == 1 ? &M1 : &M2);
+            emitE(o, false, 0);
+        }
+        else if (k == "gi" || k == "ci") {
+            if (kind >= 0) { fprintf(stderr, "harness: one object at a time\n"); exit(3); }
+            TestMemoryAllocator* n1 = getCurrentNewAllocator(); TestMemoryAllocator* n2 = getCurrentNewArrayAllocator();
+            setCurrentNewAllocator(&plainNew); setCurrentNewArrayAllocator(&plainNewArray);
+            PlatformSpecificMalloc = envHookMalloc; PlatformSpecificFree = envHookFree;
+            if (k == "gi") { g = new (objMem) GlobalSimpleStringCache; kind = 0; }
+            else {
+                cache = new (cacheMem2) SimpleStringInternalCache;
+                adaptor = new SimpleStringCacheAllocator(*cache, SimpleString::getStringAllocator());
+                SimpleString::setStringAllocator(adaptor);
+                kind = 1;
+            }
+            PlatformSpecificMalloc = savedMalloc; PlatformSpecificFree = savedFree;
+            setCurrentNewAllocator(n1); setCurrentNewArrayAllocator(n2);
+            emitE(o, false, 0);
+        }
+        else if (k == "go") {
+            if (kind < 0) { fprintf(stderr, "harness: no object\n"); exit(3); }
+            TestMemoryAllocator* n1 = getCurrentNewAllocator(); TestMemoryAllocator* n2 = getCurrentNewArrayAllocator();
+            setCurrentNewAllocator(&plainNew); setCurrentNewArrayAllocator(&plainNewArray);
+            PlatformSpecificMalloc = envHookMalloc; PlatformSpecificFree = envHookFree;
+            if (kind == 0) { deadAdaptor = g->getAllocator(); g->~GlobalSimpleStringCache(); g = 0; }
+            else {
+                deadAdaptor = adaptor;
+                SimpleString::setStringAllocator(adaptor->originalAllocator());
+                cache->clearAllIncludingCurrentlyUsedMemory();
+                delete adaptor; adaptor = 0;
+                cache->~SimpleStringInternalCache(); cache = 0;
+            }
+            PlatformSpecificMalloc = savedMalloc; PlatformSpecificFree = savedFree;
+            setCurrentNewAllocator(n1); setCurrentNewArrayAllocator(n2);
+            kind = -1;
+            emitE(o, false, 0);
+        }
+        else if (k == "ti") {
+            tSaved = SimpleString::getStringAllocator();
+            SimpleString::setStringAllocator(&T);
+            emitE(o, false, 0);
+        }
+        else if (k == "tr") {
+            if (SimpleString::getStringAllocator() == &T)
+                SimpleString::setStringAllocator(tSaved == deadAdaptor && kind < 0 ? &U : tSaved);   // never back to an adaptor that is gone
+            emitE(o, false, 0);
+        }
+        else if (k == "a" || k == "s") {
+            size_t n = (size_t)t.u();
+            Handed h; h.str = 0; h.size = n;
+            if (k == "s") {
+                if (n == 0) { fprintf(stderr, "harness: a string has at least one byte\n"); exit(3); }
+                std::string txt(n - 1, 's');
+                h.str = new SimpleString(txt.c_str());
+                h.p = h.str->buffer_;
+            }
+            else {
+                h.p = SimpleString::getStringAllocator()->alloc_memory(n, __FILE__, __LINE__);
+                unsigned long long id, off;
+                if (h.p && findBlock(h.p, id, off) && n > 0 && off + n <= real(gB[id].sz)) { memset(h.p, 'a', n - 1); h.p[n - 1] = 0; }
+            }
+            handed.push_back(h);
+            emitE(o, true, h.p);
+        }
+        else if (k == "d") {
+            size_t idx = (size_t)t.u();
+            if (idx >= handed.size()) { fprintf(stderr, "harness: release of a request that has not happened\n"); exit(3); }
+            if (handed[idx].str) { SimpleString* str = handed[idx].str; handed[idx].str = 0; delete str; }
+            else SimpleString::getStringAllocator()->free_memory(handed[idx].p, handed[idx].size, __FILE__, __LINE__);
+            emitE(o, false, 0);
+        }
+        else { fprintf(stderr, "harness: bad op %s\n", k.c_str()); exit(3); }
+        if (ended && kind < 0) break;
+    }
+    U.reenter = false;
+    for (size_t i = 0; i < handed.size(); i++)
+        if (handed[i].str) { handed[i].str->buffer_ = 0; handed[i].str->bufferSize_ = 0; delete handed[i].str; }
+    SimpleString::setStringAllocator(before);
+    setCurrentMallocAllocator(mallocBefore);
+    gNX = 0;
+}
+
 int main()
 {
     Toks t; Out o;
@@ -289,6 +503,13 @@ int main()
         int via = t.n();
         gNE = 0; gPrinted = false;
         PlatformSpecificFPuts = hookFPuts; PlatformSpecificFlush = hookFlush;
+        if (via == 3) {
+            runEnvironment(t, o);
+            PlatformSpecificFPuts = savedFPuts; PlatformSpecificFlush = savedFlush;
+            recReset();
+            o.flush();
+            continue;
+        }
         if (via == 2) {
             runInstalled(t, o, rec);
             PlatformSpecificFPuts = savedFPuts; PlatformSpecificFlush = savedFlush;
